@@ -416,7 +416,7 @@ where
     P: Instrumented + 'static,
     A: Audit<P> + 'static,
 {
-    let mut state = match run_plain(cfg, warmup, seed ^ 0x5bd1_e995, eval) {
+    let mut state = match run_plain(cfg, warmup, seed, eval) {
         Ok(s) => s,
         Err(e) => return Err(format!("warm-up run: {e}")),
     };
@@ -442,7 +442,11 @@ where
     A: Audit<P> + 'static,
 {
     if is_warm(seed) {
-        run_observed_warm(cfg, &problem.fresh_copy(), problem, seed, eval, audit)
+        // half of them warmed up on an instance with ANOTHER objective over the same search space and the same seed (so
+        // both runs start from the same solutions); whatever the first run left in the state - the evaluator object
+        // included - must not leak objective values of the other instance into the audited run
+        let warmup = if seed & 1 == 1 { problem.variant() } else { problem.fresh_copy() };
+        run_observed_warm(cfg, &warmup, problem, seed, eval, audit)
     } else {
         run_observed(cfg, problem, seed, eval, audit)
     }
